@@ -15,7 +15,7 @@ HARNESSES = [(PKG, HARNESS, "c14"), ("network/transport/v2", ["network/transport
              ("vcr", ["vcr/zz_verif_c14_test.go"], "c14v")]
 ROOT = os.path.dirname(os.path.dirname(os.path.abspath(__file__)))
 
-REQUIRED = ["no_loss", "admitted_by_commit", "only_admitted_delivered", "not_admitted_unchanged", "no_call_after_done",
+REQUIRED = ["no_loss", "admitted_by_commit", "only_admitted_delivered", "payload_event_per_transaction", "identical_payload_witness", "not_admitted_unchanged", "no_call_after_done",
             "no_call_after_done_split", "completed_job_gone", "call_after_done_without_presence_check", "call_after_done_when_write_back_recreates", "shared_key_witness",
             "delay_monotone", "delay_doubles", "typed_of_filter", "realSubs_are_the_registrations",
             "restart_redelivers", "delivered_at_least_once", "eventual_delivery", "eventual_delivery_from_start", "failed_visible",
@@ -83,6 +83,7 @@ def oracle(h, threshold):
     admitted = {}       # (r, ty) -> index
     dag = set()
     payloads = set()
+    evented = set()     # refs whose payload event was created (Add with payload, or a WritePayload)
     completed = {}      # (s, r) -> index of completion
     called = set()      # (s, r) with a non-crash call
     finfail_keys = set()
@@ -109,10 +110,14 @@ def oracle(h, threshold):
             if op.get("payload"):
                 admitted.setdefault((r, "payload"), i)
                 payloads.add(txs[r]["pnum"])
+                evented.add(r)
         if kind == "wp" and (status.startswith("ok") or status == "stop"):
+            # the payload of transaction r became available: r gets a payload event - once per TRANSACTION (another
+            # transaction with byte-identical payload does not count)
             r = op["ref"]
-            if txs[r]["pnum"] not in payloads:
+            if r not in evented:
                 admitted.setdefault((r, "payload"), i)
+            evented.add(r)
             payloads.add(txs[r]["pnum"])
         # --- calls
         new_events = [(r2, ty2) for (r2, ty2), i2 in admitted.items() if i2 == i]
@@ -388,6 +393,15 @@ def handler_oracle(ctx):
                       f"real handleTransactionPayload: vcr_vcs called again after completion at {again} (calls {rows[again[0]]['calls']})",
                       "handler-second-payload.jsonl", open(wit).read() if os.path.exists(wit) else "see harness/inpkg/network/transport/v2/zz_verif_c14_test.go")
     ctx.cov["handler_level_steps"] = len(rows)
+    # two distinct transactions with byte-identical payloads, through the real handler
+    ident = dict(re.findall(r"^identical-(\S+) err=\S+ calls=(\d+)", "\n".join(ctx.read_lines(os.path.join(out, "handler.out"))), re.M))
+    want_i = {"add-twin-with-payload": "1", "add-private": "1", "payload-1": "2", "payload-2": "2"}
+    ctx.oblige("oracle:handler:identical-payload-each-transaction-gets-its-payload-event", ident == want_i, f"calls {ident}, expected {want_i}")
+    if ident != want_i:
+        wit = os.path.join(ROOT, "harness", "corpus", "C14", "identical-payload-second-transaction.jsonl")
+        sig = "C14:admitted-event-lost" if ident.get("payload-1") == "1" else "C14:call-after-completion:second-WritePayload-recreates-finished-job"
+        ctx.violation(sig, f"real handleTransactionPayload, two transactions with identical payload: subscriber calls {ident}, expected {want_i}",
+                      "handler-identical-payload.jsonl", open(wit).read() if os.path.exists(wit) else "see harness/inpkg/network/transport/v2/zz_verif_c14_test.go")
     # the real "private" receiver (handlePrivateTxRetry, registered by the real Configure): retry / fatal / done
     want = {"db": "retried", "err": "fatal", "nokeys": "done", "present": "done"}
     got = dict(re.findall(r"^private-(\w+) class=(\w+)", "\n".join(ctx.read_lines(os.path.join(out, "handler.out"))), re.M))
